@@ -565,7 +565,7 @@ MUTANTS = [
     dict(id="C05-M5", file=_P, old="        in_b = self.domain_b._contains(points, params)\n        return torch.logical_and(in_a, in_b)", new="        in_b = self.domain_b._contains(points)\n        return torch.logical_and(in_a, in_b)", rule="R-C05-1", what="params not forwarded to a factor"),
     dict(id="C05-M6", file=_T, old=".as_tensor - translate_values", new=".as_tensor + translate_values", rule="R-C05-2", what="pull-back with +"),
     dict(id="C05-M7", file=_R, old="        shifted_points = rotated_points.squeeze(-1) + translate_values\n        return self.domain._contains", new="        shifted_points = rotated_points.squeeze(-1) - translate_values\n        return self.domain._contains", rule="R-C05-2", what="rotation centre sign"),
-    dict(id="C05-M8", file=_R, old="rotated_points = torch.linalg.solve(rotation_matrix, shifted_points.unsqueeze(-1))", new="rotated_points = torch.matmul(rotation_matrix, shifted_points.unsqueeze(-1))", rule="R-C05-2", what="forward rotation in the pull-back"),
+    dict(id="C05-M8", file=_R, old="        rotated_points = torch.linalg.solve(\n            rotation_matrix, shifted_points.unsqueeze(-1)\n        )", new="        rotated_points = torch.matmul(\n            rotation_matrix, shifted_points.unsqueeze(-1)\n        )", rule="R-C05-2", what="forward rotation in the pull-back"),
     dict(id="C05-M9", file=_CI, old="        center, radius = self._compute_center_and_radius(\n            points.join(params), points.device\n        )\n        points = points[:, list(self.space.keys())].as_tensor\n        norm = torch.linalg.norm(points - center, dim=1).reshape(-1, 1)\n        return torch.le(",
          new="        center, radius = self._compute_center_and_radius(\n            params, points.device\n        )\n        points = points[:, list(self.space.keys())].as_tensor\n        norm = torch.linalg.norm(points - center, dim=1).reshape(-1, 1)\n        return torch.le(", rule="R-C05-3", what="shape evaluated on params only"),
     dict(id="C05-M10", file=_IV, old="        lb = self.lower_bound(points.join(params))\n        ub = self.upper_bound(points.join(params))\n        points = points[:, list(self.space.keys())].as_tensor\n        bigger_then_low",
@@ -579,6 +579,6 @@ TWINS = [
     dict(id="C05-T2", file=_I, old="        return torch.logical_and(in_a, in_b)\n\n    def _get_volume", new="        return in_b & in_a\n\n    def _get_volume", what="operator form, commuted"),
     dict(id="C05-T3", file=_U, old="        on_both = torch.logical_and(on_b_bound, on_a_bound)\n        on_a_part = torch.logical_and(on_a_bound, torch.logical_not(in_b))\n        on_b_part = torch.logical_and(on_b_bound, torch.logical_not(in_a))\n        return torch.logical_or(on_a_part, torch.logical_or(on_b_part, on_both))",
          new="        outside_b = ~in_b\n        outside_a = ~in_a\n        part_a = on_a_bound & outside_b\n        part_b = on_b_bound & outside_a\n        both = on_a_bound & on_b_bound\n        return (part_a | part_b) | both", what="operators and temporaries"),
-    dict(id="C05-T4", file=_T, old="        shifted_points = points[:, list(self.space.keys())].as_tensor - translate_values\n        return self.domain._contains(Points(shifted_points, self.space), params)",
+    dict(id="C05-T4", file=_T, old="        shifted_points = points[:, list(self.space.keys())].as_tensor - translate_values\n        # points[:, list(self.space.keys())] = Points(shifted_points, self.space)\n        return self.domain._contains(Points(shifted_points, self.space), params)",
          new="        own = points[:, list(self.space.keys())].as_tensor\n        moved_back = -translate_values + own\n        return self.domain._contains(Points(moved_back, self.space), params)", what="commuted sum"),
 ]
